@@ -1,12 +1,19 @@
 #!/bin/sh
-# usage: try_seed.sh <patch> "<props>"  -- applies the patch to /repo, runs quick checks, reverts
+# usage: try_seed.sh <patch> "<props>"
+# Applies the patch to a scratch worktree of /repo (never to /repo itself, whose working tree other
+# checks may be reading), runs the quick checks against it, and reverts. Evidence of these runs goes
+# to /tmp/ev-seeded, not to /verif/evidence.
 patch=$1; props=$2
-cd /repo && git apply "$patch" || exit 2
+wt=/tmp/ts-repo
+if [ ! -d $wt ]; then git -C /repo worktree add -q --detach $wt HEAD || exit 2; fi
+git -C $wt checkout -q --detach "$(git -C /repo rev-parse HEAD)" || exit 2
+git -C $wt checkout -- . 
+git -C $wt apply "$patch" || exit 2
 cd /verif
+export VERIF_REPO=$wt
 export VERIF_EVIDENCE_DIR=/tmp/ev-seeded; mkdir -p $VERIF_EVIDENCE_DIR
 for p in $props; do
   echo "=== $p"
   ./tools/check.sh $p quick 2>&1 | grep -E "^--- violation|^VIOLATION|^runs=|HARNESS|error" | cut -c1-300
 done
-git -C /repo checkout -- .
-git -C /repo status --short | head
+git -C $wt checkout -- .
